@@ -331,6 +331,9 @@ struct ProbeConfig {
     /// building this appender takes that long (a syslog/database appender that connects when it is built)
     #[serde(default)]
     slow_ms: Option<u64>,
+    /// while it is being built the appender logs a record of its own through the log macros ("connecting to ...")
+    #[serde(default)]
+    log_while_building: Option<String>,
 }
 
 struct ProbeDeserializer {
@@ -344,8 +347,15 @@ struct ProbeAppender {
     sink: Arc<Mutex<Vec<(String, String)>>>,
 }
 
+/// (tag of the delivering configuration, message) of records logged by appenders while they were being built
+static BUILD_RECORDS: Mutex<Vec<(String, String)>> = Mutex::new(Vec::new());
+
 impl Append for ProbeAppender {
     fn append(&self, record: &log::Record) -> anyhow::Result<()> {
+        if record.target() == "reload-build" {
+            BUILD_RECORDS.lock().unwrap().push((self.tag.clone(), record.args().to_string()));
+            return Ok(());
+        }
         self.sink.lock().unwrap().push((self.tag.clone(), record.target().to_string()));
         Ok(())
     }
@@ -359,6 +369,9 @@ impl log4rs::config::Deserialize for ProbeDeserializer {
         self.built.fetch_add(1, Ordering::SeqCst);
         if let Some(ms) = config.slow_ms {
             std::thread::sleep(Duration::from_millis(ms));
+        }
+        if let Some(text) = &config.log_while_building {
+            log::error!(target: "reload-build", "{}", text);
         }
         Ok(Box::new(ProbeAppender { tag: config.tag, sink: self.sink.clone() }))
     }
@@ -865,6 +878,24 @@ fn smoke_rates(c: &Smoke, obs: &mut Obs) -> CaseResult {
         std::thread::sleep(Duration::from_millis(300));
         publish(&text(k, "100ms"));
         ensure!(wait_for(&format!("v{}", k)).is_some(), "C15:stopped-polling", "after a reload that took longer (450 ms) than the refresh rate (100 ms) the reloader no longer applies valid changes");
+        obs.sub_evals += 1;
+    }
+    // 2c. an appender of the incoming configuration logs while it is being built: that record is routed by a complete
+    // configuration - the outgoing one, or the incoming one - never by nothing
+    {
+        let k = next();
+        let prev = format!("v{}", if k == 1 { 4 } else { k - 1 });
+        std::thread::sleep(Duration::from_millis(150));
+        BUILD_RECORDS.lock().unwrap().clear();
+        publish(&text(k, "100ms").replace(&format!("    tag: v{}\n", k), &format!("    tag: v{}\n    log_while_building: connecting-{}\n", k, k)));
+        ensure!(wait_for(&format!("v{}", k)).is_some(), "C15:valid-change-not-applied:reloader-thread", "a valid change whose appender logs while it is being built was not applied within 30 s");
+        let seen = BUILD_RECORDS.lock().unwrap().clone();
+        let mine: Vec<&(String, String)> = seen.iter().filter(|(_, m)| *m == format!("connecting-{}", k)).collect();
+        ensure!(
+            !mine.is_empty() && mine.iter().all(|(tag, _)| *tag == prev || *tag == format!("v{}", k)),
+            "C15:record-during-reload-lost",
+            "the appender of the new version v{} logged an error record while it was being built by the reloader; both the outgoing (v{}) and the incoming configuration deliver error records to their appender, but the record arrived {:?}", k, prev, seen
+        );
         obs.sub_evals += 1;
     }
     // 3. a much longer rate is honoured as well: after switching to 1 h nothing is polled for the next seconds
